@@ -93,6 +93,9 @@ mutant("c04_sequential_update", "C04", "models/mcmc_saem_compatible.py",
 mutant("c04_scalar_noise_unobserved_entries", "C04", "models/obs_models/_gaussian.py",
        "        summed = sum_dim(-2 * y_x_model + model_x_model)\n        noise_var = (y_l2 + summed) / n_obs.float()",
        "        noise_var = (y_l2 - 2 * sum_dim(y_x_model) + sum_dim(model_x_model)) / n_obs.float()")
+mutant("c04_square_statistic_is_the_value_itself", "C04", "variables/specs.py",
+       "                    ind_var_sqr_name: LinkedVariable(\n                        Sqr(ind_var_name)\n                    )",
+       "                    ind_var_sqr_name: LinkedVariable(\n                        Identity(ind_var_name)\n                    )")
 # ----------------------------------------------------------------------------- C05
 mutant("c05_burn_in_strict", "C05", "algo/algo_with_samplers.py",
        "        return self.current_iteration <= self.algo_parameters[\"n_burn_in_iter\"]",
